@@ -5,6 +5,7 @@ CONSTANTS
   QCap = 2
   MaxWrites = 6
   SendUnderLock = FALSE
+  FlushTrySend = FALSE
 INVARIANT NoSelfDeadlock
 PROPERTY SealedEventuallyFlushed
 CHECK_DEADLOCK FALSE
